@@ -146,7 +146,7 @@ Fixpoint chunk4 (fuel : nat) (d : list Z) : option (list (list Z)) :=
 Definition dec_attr_body (flags typ : Z) (b : list Z) : option attr :=
   if typ =? 1 then (match b with [v] => Some (AOrigin v) | _ => None end)
   else if typ =? 2 then option_map AAsPath (dec_segs (length b) b)
-  else if typ =? 3 then (if blen b =? 4 then Some (ANextHop b) else None)
+  else if typ =? 3 then (if (blen b =? 4) || (blen b =? 16) then Some (ANextHop b) else None)
   else if typ =? 4 then (if blen b =? 4 then Some (AMed (de32 b)) else None)
   else if typ =? 5 then (if blen b =? 4 then Some (ALocalPref (de32 b)) else None)
   else if typ =? 6 then (match b with [] => Some AAtomic | _ => None end)
